@@ -127,7 +127,14 @@ def run(ctx):
         raise AnalysisError("record_call_node: loop adding CallSubtreeTask rows not found", "RedunBackendDb.record_call_node")
     for lp in loops:
         inner = expr_commits(lp, commits)
+        # the loop ranges over the whole parameter: `subtree_tasks` itself or a local copy of it (`x = list(subtree_tasks)`)
         it_ok = src(lp.iter) == "subtree_tasks"
+        if not it_ok and isinstance(lp.iter, ast.Name):
+            defs = [a.value for a in ast.walk(rc) if isinstance(a, ast.Assign) and any(isinstance(t, ast.Name) and t.id == lp.iter.id for t in a.targets)]
+            it_ok = bool(defs) and all(
+                src(d) == "subtree_tasks" or (isinstance(d, ast.Call) and call_name(d) in ("list", "tuple", "set", "sorted", "frozenset") and len(d.args) == 1 and src(d.args[0]) == "subtree_tasks")
+                for d in defs
+            )
         r1.check(not inner and it_ok, f"{db.rel}:RedunBackendDb.record_call_node:subtree-loop", f"subtree rows are not added for every task of subtree_tasks in one transaction (commits inside loop: {inner}, iter={src(lp.iter)})", db.rel, lp.lineno)
 
     # ---- C03.2 single gate ---------------------------------------------------
